@@ -199,7 +199,19 @@ class MessageBase(Accessor):
         self, indent: Optional[int] = None, separators: Optional[Tuple[str, str]] = None
     ) -> str:
         """Dumps this message to a json string."""
-        return json.dumps(self.to_dict(), indent=indent, separators=separators)
+        return json.dumps(
+            self.to_dict(),
+            indent=indent,
+            separators=separators,
+            default=_json_default,
+        )
+
+
+def _json_default(o: Any) -> Any:
+    """json.dumps fallback: byte arrays (`byte[n]` fields) are dumped as lists of ints."""
+    if isinstance(o, (bytearray, bytes)):
+        return list(o)
+    raise TypeError(f"Object of type {type(o).__name__} is not JSON serializable")
 
 
 class Processor:
